@@ -34,7 +34,12 @@ type vInt struct {
 type vSlice struct {
 	Len Lin
 	Org *sliceOrg // identity/offset within a named byte buffer (wire input or output)
+	// bits mode: an array value copied out of a local array (`return buf` of a [4]byte the
+	// function filled) carries the elements it had when copied: heap-key suffix → value
+	Snap *arrSnap
 }
+
+type arrSnap struct{ Elems map[string]lfVal }
 
 // sliceOrg identifies a window into a byte buffer: Name "d" for decoder input,
 // "pre<n>"/"app<n>" for bytes obtained from SerializeBuffer.PrependBytes/AppendBytes.
@@ -203,6 +208,7 @@ type lfEngine struct {
 	loopsSeen   map[string]string                                 // loop key → termination verdict
 	onHeapStore func(st *lfState, x *ssa.Store, p vPtr, sv lfVal) // observer of stores through pointers (rules that ask the engine about one store)
 	onEnter     func(st *lfState, callee *ssa.Function)           // observer of calls interpreted inline (may mark the state's trail)
+	onCall      func(fr *lfFrame, st *lfState, x *ssa.Call)       // observer of every call before it is interpreted (may append events)
 	loopPend    map[string]*Loop                                  // loops with no syntactic ranking argument yet: decided by resolveLoops from sliceLow
 	sliceLow    map[*ssa.Slice]int8                               // s[k:] executed: +1 when k ≥ 1 was entailed in every state that reached it, -1 otherwise
 	loopPos     map[string]token.Pos
@@ -1534,6 +1540,21 @@ func (e *lfEngine) step(fr *lfFrame, st *lfState, in ssa.Instruction) {
 			}
 			sv := e.val(fr, st, x.Val)
 			st.heap[key] = sv
+			if av, isA := sv.(vSlice); isA && av.Snap != nil {
+				if e.arrOrg == nil {
+					e.arrOrg = map[string]int{}
+				}
+				aid, has := e.arrOrg[key]
+				if !has {
+					aid = e.id()
+					e.arrOrg[key] = aid
+				}
+				for suffix, ev := range av.Snap.Elems {
+					st.heap[key+suffix] = ev
+					st.heap[fmt.Sprintf("%d%s", -50000-aid, suffix)] = ev
+				}
+				delete(st.heap, key)
+			}
 			if e.onHeapStore != nil && e.quiet == 0 {
 				e.onHeapStore(st, x, p, sv)
 			}
@@ -1861,6 +1882,28 @@ func (e *lfEngine) doUnOp(fr *lfFrame, st *lfState, x *ssa.UnOp) {
 			if v, ok := st.heap[key]; ok {
 				fr.env[x] = v
 				return
+			}
+			if at, isArr := x.Type().Underlying().(*types.Array); isArr && e.bits && p.Elem == nil {
+				// the whole array by value: a snapshot of its elements
+				snap := &arrSnap{Elems: map[string]lfVal{}}
+				for hk, hv := range st.heap {
+					if strings.HasPrefix(hk, key+"[") && strings.HasSuffix(hk, "]") && !strings.Contains(hk[len(key)+1:], "[") {
+						snap.Elems[hk[len(key):]] = hv
+					}
+				}
+				if aid, has := e.arrOrg[key]; has {
+					// elements written through a slice of the array live under the slice identity
+					pfx := fmt.Sprintf("%d[", -50000-aid)
+					for hk, hv := range st.heap {
+						if strings.HasPrefix(hk, pfx) {
+							snap.Elems[hk[len(pfx)-1:]] = hv
+						}
+					}
+				}
+				if len(snap.Elems) > 0 {
+					fr.env[x] = vSlice{Len: linConst(at.Len()), Snap: snap}
+					return
+				}
 			}
 			v := e.fresh(st, x.Type(), apOf(x.X).String())
 			// (a load nobody uses — `_ = b[2]`, the bounds-check hint — reads nothing that matters)
@@ -2783,7 +2826,6 @@ func (e *lfEngine) nameByType(obj int, t types.Type) {
 	}
 }
 
-
 var (
 	roGlobalMu    sync.Mutex
 	roGlobalCache = map[*ssa.Global]bool{}
@@ -2975,7 +3017,6 @@ func (e *lfEngine) tableLoad(fr *lfFrame, st *lfState, x *ssa.UnOp, cont func(*l
 	}
 	return forked
 }
-
 
 // assertJustifiedVia: the asserted value is the first result of a module function that hands
 // back what gopacket.Packet.Layer(t) gave it (or nil together with an error), t being a
